@@ -20,7 +20,7 @@ import vlib
 
 LEVEL = "model_checking"
 FAM = "config"
-DEFECT_CFGS = ["ConfigStore_defect%d.cfg" % i for i in range(1, 11)]
+DEFECT_CFGS = ["ConfigStore_defect%d.cfg" % i for i in range(1, 12)]
 SWAP_DEFECT_CFGS = ["ConfigSwap_defect1.cfg", "ConfigSwap_defect2.cfg"]
 API_OPS = {"routers", "addroute", "rmroutes", "clusterhosts", "listener"}   # operations the admin debug API offers
 
